@@ -1,3 +1,4 @@
+import itertools
 import torch
 
 from ..domain import Domain, BoundaryDomain
@@ -192,16 +193,23 @@ class Rotate(Domain):
         # domain_bounds are in shape [x_min, x_max, y_min, y_max, ...]
         # both min and max have to be shifted by the same value
         domain_bounds = domain_bounds - translation_values
-        rotated_min = torch.matmul(rotation_matrix, domain_bounds[:, ::2].unsqueeze(-1))
-        rotated_min = rotated_min.squeeze(-1)
-        rotated_max = torch.matmul(
-            rotation_matrix, domain_bounds[:, 1::2].unsqueeze(-1)
-        )
-        rotated_max = rotated_max.squeeze(-1)
+        # rotate every corner of the box (not only the min- and the max-corner)
+        # and take the extreme values per axis
+        mins, maxs = domain_bounds[:, ::2], domain_bounds[:, 1::2]
+        rotated_min, rotated_max = None, None
+        for choice in itertools.product([False, True], repeat=self.space.dim):
+            use_max = torch.tensor(choice, device=domain_bounds.device)
+            corner = torch.where(use_max, maxs, mins)
+            rotated = torch.matmul(rotation_matrix, corner.unsqueeze(-1)).squeeze(-1)
+            if rotated_min is None:
+                rotated_min, rotated_max = rotated, rotated
+            else:
+                rotated_min = torch.min(rotated_min, rotated)
+                rotated_max = torch.max(rotated_max, rotated)
         domain_bounds = torch.zeros(
             (len(rotated_min), 2 * self.space.dim), device=device
         )
-        domain_bounds[:, ::2] = torch.min(rotated_min, rotated_max)
-        domain_bounds[:, 1::2] = torch.max(rotated_min, rotated_max)
+        domain_bounds[:, ::2] = rotated_min
+        domain_bounds[:, 1::2] = rotated_max
         domain_bounds = domain_bounds + translation_values
         return domain_bounds.squeeze(0)
